@@ -36,6 +36,8 @@ impl ChandeMomentumOscillator {
 		// documented seeds: `period` one-step changes, all 0; the previous price is the source price
 		r is Ok ==> r->Ok_0.window.view().len() == self.period && r->Ok_0.pos_sum@ == 0real && r->Ok_0.neg_sum@ == 0real
 			&& r->Ok_0.change.window.view().len() == 1 && r->Ok_0.change.window.view()[0]@ == src_val(candle, self.source),
+		// C08: the constant state for the candle's source price (cmo_const_step)
+		r is Ok ==> r->Ok_0.const_state(src_val(candle, self.source)),
 //@replace Ok(Self::Instance { ==> Ok(ChandeMomentumOscillatorInstance {
 //@hint result
 	proof {
@@ -99,6 +101,42 @@ impl ChandeMomentumOscillatorInstance {
 //@hint result
 	proof { assert(cmo_step(old(self), tmp0__, self, r.vals()[0], r.sigs()[0], ch, lo__, hi__, nz__)); }
 //@end
+}
+
+// ---- C08 at indicator level: ChandeMomentumOscillator on a repeated candle: no change, both sums stay 0, value 0, no signal
+pub open spec fn all_eq(v: Seq<R>, s: real) -> bool { forall|i: int| 0 <= i < v.len() ==> (#[trigger] v[i])@ == s }
+impl ChandeMomentumOscillatorInstance {
+	pub open spec fn const_state(&self, s: real) -> bool {
+		&&& self.inv() && all_eq(self.change.window.view(), s) && all_eq(self.window.view(), 0real)
+		&&& (self.cross_under.last_delta@ == 0real || self.cross_under.last_delta@ == self.cfg.zone@)
+		&&& (self.cross_above.last_delta@ == 0real || self.cross_above.last_delta@ == -self.cfg.zone@) && self.cfg.zone@ >= 0real
+	}
+}
+pub proof fn lemma_fsum_all_zero(v: Seq<R>, f: spec_fn(R) -> real)
+	requires forall|i: int| 0 <= i < v.len() ==> f(#[trigger] v[i]) == 0real
+	ensures fsum(v, f) == 0real
+	decreases v.len()
+{
+	if v.len() > 0 {
+		assert forall|i: int| 0 <= i < v.drop_last().len() implies f(#[trigger] v.drop_last()[i]) == 0real by { assert(v.drop_last()[i] == v[i]); }
+		lemma_fsum_all_zero(v.drop_last(), f);
+		assert(f(v.last()) == 0real) by { assert(v.last() == v[v.len() - 1]); }
+	}
+}
+pub proof fn cmo_const_step(pre: &ChandeMomentumOscillatorInstance, src: ValueType, post: &ChandeMomentumOscillatorInstance, value: ValueType, sig: Action, ch: ValueType, lo: Action, hi: Action, nz: ValueType)
+	requires pre.const_state(src@), post.inv(), post.cfg == pre.cfg, cmo_step(pre, src, post, value, sig, ch, lo, hi, nz)
+	ensures value@ == 0real, sv(sig) == 0, post.const_state(src@)
+{
+	let c = post.change.window.view();
+	assert forall|i: int| 0 <= i < c.len() implies (#[trigger] c[i])@ == src@ by { if i < c.len() - 1 { assert(c[i] == pre.change.window.view()[i + 1]); } }
+	assert(pre.change.window.view()[0]@ == src@);
+	assert(ch@ == 0real);
+	let w = post.window.view();
+	assert forall|i: int| 0 <= i < w.len() implies (#[trigger] w[i])@ == 0real by { if i < w.len() - 1 { assert(w[i] == pre.window.view()[i + 1]); } }
+	assert forall|i: int| 0 <= i < w.len() implies pos_fn()(#[trigger] w[i]) == 0real by {}
+	assert forall|i: int| 0 <= i < w.len() implies neg_fn()(#[trigger] w[i]) == 0real by {}
+	lemma_fsum_all_zero(w, pos_fn());
+	lemma_fsum_all_zero(w, neg_fn());
 }
 } // verus!
 fn main() {}
